@@ -1,4 +1,5 @@
 import SupervisorModel.Lemmas.Capture
+import SupervisorModel.Lemmas.OutDispDirect
 /-
   C08 — capture mode extracts exactly what is between the tags.
 
@@ -32,6 +33,14 @@ theorem std_tokens_nonempty (c : Cfg) (h : Std c) : c.btok ≠ [] ∧ c.etok ≠
   obtain ⟨h1, h2⟩ := h
   rw [h1, h2]
   cases c.isStdout <;> decide
+
+/-! ### the model the driver executes is the model the theorems are about
+
+  `readEventDirect` follows `handle_read_event` / `record_output` statement by statement (effects
+  interleaved with the scan, as the method is written); `readEvent` performs the calls found by
+  the scanner `scanGo`.  They are the same function. -/
+theorem direct_model_eq (c : Cfg) (x : Bytes) (s : S) : readEventDirect c x s = readEvent c x s :=
+  readEventDirect_eq c x s
 
 /-! ### the scanner refines the reference splitter (monoid-action form of fragmentation invariance)
 
@@ -138,19 +147,29 @@ theorem scan_eof_empties (c : Cfg) (hc : c.capMax ≠ 0) :
   | zero => intro m buf h; omega
   | succ n ih =>
     intro m buf hlen
+    have hg0 : record_output_g0 c.capMax m true buf c.btok c.etok [] [] 0 = false := by
+      simp [record_output_g0, hc]
+    -- at end of file: no waiting, no holding back
+    have hg2 : record_output_g2 c.capMax m true buf c.btok c.etok [] [] 0 = false := by
+      simp [record_output_g2]
+    have hg3 : ∀ (e d : Bytes) (i : Int), record_output_g3 c.capMax m true e c.btok c.etok d [] i = false := by
+      intro e d i; simp [record_output_g3]
     unfold scanGo
-    simp only [record_output_g0, record_output_g1, record_output_g2, record_output_g3, record_output_g4,
-      record_output_a2, record_output_a3, record_output_a4, record_output_a5, record_output_a11, toggle_a0,
-      beq_iff_eq, hc, Bool.not_true, Bool.and_false, Bool.false_eq_true, if_false]
+    simp only [hg0, hg2, hg3, Bool.false_eq_true, if_false]
     split
-    · rfl
+    · simp [record_output_a5]
     · rename_i before after hs
       have hal := splitFirst_some_length hs
-      by_cases h4 : after.isEmpty = true
-      · simp only [h4, Bool.not_true, Bool.false_eq_true, if_false]
-        simpa using h4
-      · simp only [h4, Bool.not_false, if_true]
-        exact ih _ _ (by omega)
+      simp only [record_output_a4] at hal
+      by_cases h4 : record_output_g4 c.capMax (toggle_a0 c.capMax m) true
+          (record_output_a11 c.capMax (toggle_a0 c.capMax m) true (record_output_a5 c.capMax m true buf c.btok c.etok [] [] 0) c.btok c.etok
+            (record_output_a4 c.capMax m true buf c.btok c.etok [] [] 0) after 0) c.btok c.etok
+          (record_output_a4 c.capMax m true buf c.btok c.etok [] [] 0) after 0 = true
+      · simp only [h4, if_true]
+        exact ih _ _ (by simp only [record_output_a11]; omega)
+      · simp only [h4, Bool.false_eq_true, if_false]
+        -- `if after:` is false only for an empty remainder
+        simpa [record_output_g4, record_output_a11] using h4
 
 /-! ### one read (`handle_read_event`) at the level of observables -/
 
